@@ -258,7 +258,7 @@ def exact_cofactor(a, b, names):
 def close_el(a, b):
     for m in set(a) | set(b):
         x, y = complex(a.get(m, 0)), complex(b.get(m, 0))
-        if abs(x - y) > 1e-9 * max(1.0, abs(x), abs(y)):
+        if not abs(x - y) <= 1e-9 * max(1.0, abs(x), abs(y)):  # NaN must not pass for close
             return False
     return True
 
